@@ -181,6 +181,29 @@ def c08(tier):
     return core.finish("C08", tier, "exploration", cov, viols, inc, t0, ASSUME_SAN, min_evals=1000)
 
 
+def c09(tier):
+    t0 = time.time()
+    cfgs = vec.FAULT_QUICK + (vec.FAULT_THOROUGH if tier == "thorough" else [])
+    cov, viols, inc = sets.run_engine("C09", tier, cfgs, 27, 27, extra_args=["--wide"] if tier == "thorough" else [], crash_owners=("C09",))
+    scfgs = sets.SETFAULT_QUICK + (sets.SETFAULT_THOROUGH if tier == "thorough" else [])
+    c2, v2, i2 = sets.run_engine("C09", tier, scfgs, 13, 13, crash_owners=("C09",))
+    cov, viols, inc = sets.merge_cov(cov, c2), viols + v2, inc + i2
+    ob = cov.get("observed", {})
+    cov["rule"] = ("fault enumeration: scenario = (configuration, state {size 0/2/5 x natural, heap-full, exact room, more room}, operation (27 forms), position "
+                   "{begin, mid, end}, count); each scenario is run fault-free to count its M throwing-capable events (element value/default/copy construction, "
+                   "copy assignment, allocator allocate/reallocate), then re-created M times with the k-th event throwing. After each fault: live elements == "
+                   "visible elements, all visible alive and not moved-from, allocator ledger == blocks owned, follow-up script, clean destruction; for the "
+                   "documented-strong operations the contents must be unchanged. evaluations = monitored calls; distinct cell = (configuration, operation, "
+                   "state class, grows/fits, strong/basic, position class). Sets: FlatSet and SmallSet (both backing sets) insert/emplace/hint/range/"
+                   "initializer-list insertion, merge (same and other comparator), copy construction/assignment, range construction at contents around "
+                   "the inline capacity; after each fault every container involved must be a consistent set of live elements, draining it completely "
+                   "must leave it empty, refilling must work and destruction must leave nothing behind.")
+    cov["fault_points_enumerated"] = ob.get("fault_points_found", 0)
+    cov["faulted_executions"] = ob.get("faulted_executions", 0)
+    cov["armed_but_not_reached"] = ob.get("armed_but_not_reached", 0)
+    return core.finish("C09", tier, "fault_enumeration", cov, viols, inc, t0, ASSUME_SAN, min_evals=1000)
+
+
 def setup():
     specs = [c.spec() for c in vec.QUICK]
     core.build_many(specs)
@@ -188,4 +211,4 @@ def setup():
     return 0
 
 
-CHECKS = {"C01": c01, "C02": c02, "C05": c05, "C06": c06, "C07": c07, "C03": c03, "C04": c04, "C11": c11, "C12": c12, "C19": c19, "C18": c18, "C10": c10, "C08": c08}
+CHECKS = {"C01": c01, "C02": c02, "C05": c05, "C06": c06, "C07": c07, "C03": c03, "C04": c04, "C11": c11, "C12": c12, "C19": c19, "C18": c18, "C10": c10, "C08": c08, "C09": c09}
